@@ -16,7 +16,7 @@ From J5V.lib Require Import Outcome Strcase.
 From J5V.model Require Import Entity EntityClient.
 From J5V.gen Require EntityGen.
 From J5V.proofs Require Import StrcaseProofs EntityProofs EntityGenProofs EntityReadmeProofs EntityClientProofs
-  EntitySpec EntitySpecProofs.
+  EntitySpec EntitySpecProofs EntityAcceptProofs.
 Import ListNotations.
 Local Open Scope N_scope.
 
@@ -78,14 +78,40 @@ Theorem C17_optional_repeated_refuted :
 Proof. exact optional_repeated_refuted. Qed.
 Print Assumptions C17_optional_repeated_refuted.
 
-(* PARTIAL: what holds.  For EVERY declaration the model compiles (in the quantifier or not)
-   the output satisfies the core specification; for declarations in the quantifier the path
-   parameters of Get and Events are exactly the primary and shard keys in declaration order
-   and Events = Get + "/events" (no clean-path hypothesis: path.Join's cleaning is part of the
-   proof); and when no key uses a property name of State / Event ([reserved_free]) these are
-   objects.  MISSING for the full statement: acceptance, i.e.
-   in_quantifier e -> reserved_free e -> exists cs, compile e = Ok cs
-   (on every run checked by the correspondence in both directions, not proved). *)
+(* an entity named Page (or Events, with eventsInGet): the entity's own property in the List (Get)
+   response has the name of the page (events) property next to it *)
+Theorem C17_entity_named_page_refuted :
+  in_quantifier page_entity = true /\ compile page_entity = Err "symbol already defined".
+Proof. exact entity_named_page_refuted. Qed.
+Print Assumptions C17_entity_named_page_refuted.
+
+Theorem C17_status_case_refuted :
+  exists cs, in_quantifier status_case_sample = true /\ reserved_free status_case_sample = true
+    /\ compile status_case_sample = Ok cs /\ client_accepts cs = false.
+Proof. exact status_case_refuted. Qed.
+Print Assumptions C17_status_case_refuted.
+
+(* PARTIAL (1): THE FULL STATEMENT HOLDS FOR EVERY DECLARATION WITHOUT RESERVED NAMES.
+   [reserved_free e]: no primary/shard key named page or query, no key named metadata / data /
+   status / event, no summary field named upsert, no event or oneof option named type, the entity
+   not named page (nor events when eventsInGet is set) - exactly the names the expansion itself
+   puts next to the user's.  Such a declaration in the quantifier is ACCEPTED (parser validation,
+   walker, conversion, link step) and its output satisfies every clause of the specification. *)
+Theorem C17_full_modulo_reserved : forall e, in_quantifier e = true -> reserved_free e = true ->
+  exists cs, compile e = Ok cs /\ C17_spec e cs.
+Proof. exact full_modulo_reserved. Qed.
+Print Assumptions C17_full_modulo_reserved.
+
+Theorem C17_acceptance : forall e, in_quantifier e = true -> reserved_free e = true -> exists cs, compile e = Ok cs.
+Proof. exact acceptance. Qed.
+Print Assumptions C17_acceptance.
+
+(* PARTIAL (2): for EVERY declaration the model compiles (in the quantifier or not, reserved
+   names or not) the output satisfies the core specification; for declarations in the
+   quantifier the path parameters of Get and Events are exactly the primary and shard keys in
+   declaration order and Events = Get + "/events" (no clean-path hypothesis: path.Join's
+   cleaning is part of the proof); State / Event are objects when no key uses one of their
+   property names. *)
 Theorem C17_full_partial : forall e cs, compile e = Ok cs ->
   C17_spec_core e cs
   /\ (in_quantifier e = true -> spec_query_paths e cs)
@@ -137,12 +163,13 @@ Print Assumptions C17_closed_scalars.
 (* fields_ok: no user-declared field is both optional and required/primary (buildProperty);
    *_params_ok: every ":name" part of a method path is a request field (visitServiceMethodNode) *)
 Example C17_compile_is_expand : forall e,
+  list_settings e = false ->
   (forall fl, user_refs_ok e (defined (expand_with e fl)) = true) ->
   fields_ok e = true -> query_params_ok e = true -> command_params_ok e = true -> convert e = expand e.
 Proof. exact compile_expand. Qed.
 Print Assumptions C17_compile_is_expand.
 
-Example C17_compile_errors : forall e cs, expand e = Ok cs ->
+Example C17_compile_errors : forall e cs, expand e = Ok cs -> list_settings e = false ->
   convert e = if user_refs_ok e (defined cs) then
                 if fields_ok e then
                   if query_params_ok e && command_params_ok e then Ok cs
@@ -165,6 +192,15 @@ Print Assumptions C17_query_params_ok.
 Example C17_expand_total : forall e, is_panic (expand e) = false /\ expand e <> OutOfFuel.
 Proof. exact expand_total. Qed.
 Print Assumptions C17_expand_total.
+
+(* Go panics are not hidden by the model: the conversion panics exactly when the walker accepted a
+   declaration whose query block carries listRequest / eventsListRequest settings (SetExtension of a
+   MessageOptions extension on MethodOptions in visitServiceMethodNode; cmpb's known C07 finding;
+   outside C17's quantifier: [in_quantifier] requires list_settings e = false) *)
+Theorem C17_convert_panics : forall e,
+  is_panic (convert e) = true <-> (exists cs, expand e = Ok cs) /\ list_settings e = true.
+Proof. exact convert_panics. Qed.
+Print Assumptions C17_convert_panics.
 
 (* 3. the same annotation everywhere: psm options and service options carry
       ToSnake(name), topics carry <package>.ToCamel(name) *)
@@ -269,6 +305,17 @@ Print Assumptions C17_default_paths.
 
 (* component names are proto identifiers: ToCamel yields letters and digits only and, for an
    identifier starting with a letter, starts with a capital *)
+(* the same for every declaration in the quantifier without a baseUrlPath override: the clean-path
+   fact, the ':'-free package and the identifier keys are DERIVED from the quantifier, and the base is
+   spelled out: /<package with '/' for '.'>/<ToSnake(name)>/q *)
+Theorem C17_default_paths_quantified : forall e, e_base_url e = [] -> in_quantifier e = true ->
+  nth 0 (query_paths e) [] = query_base e ++ flat_map (fun u => 47 :: brace u) (get_keys e)
+  /\ nth 2 (query_paths e) [] =
+       query_base e ++ flat_map (fun u => 47 :: brace u) (get_keys e) ++ bs "/events"
+  /\ query_base e = [47] ++ map (fun c => if c =? 46 then 47 else c) (e_pkg e) ++ [47] ++ to_snake (e_name e) ++ bs "/q".
+Proof. exact default_paths_quantified. Qed.
+Print Assumptions C17_default_paths_quantified.
+
 Theorem C17_component_names_alnum : forall e suffix,
   forallb alnum (component_name e suffix) = true.
 Proof. exact component_names_alnum. Qed.
@@ -321,7 +368,7 @@ Print Assumptions C17_status_numbering.
 (* default status filters always name values of the status enum (after fix 705ef70) *)
 Theorem C17_default_filters_are_statuses : forall e fl f,
   default_filters e (requested_filters e) = Some fl -> In f fl ->
-  In f (map fst (status_values (status_prefix e) (e_status e))).
+  In f (map fst (entity_status_values e)).
 Proof. exact default_filters_are_enum_values. Qed.
 Print Assumptions C17_default_filters_are_statuses.
 
@@ -415,6 +462,31 @@ Proof.
 Qed.
 Print Assumptions C17_code_tables.
 
+(* the same tie, DERIVED FROM THE MODEL FUNCTION (not from tables typed into a proofs file):
+   [expand_with] on a probe declaration yields, in the order of entityNode.run, the landmark each
+   accept function defines (by its componentName literal / Sprintf format); the literal property
+   names of State / Event / the publish message / the query messages are those the accept functions
+   write; method names and base paths are the code's Sprintf formats applied; the psm parts are the
+   EntityPart constants; the implicit imports and the external references are the code's *)
+Theorem C17_code_tables_from_model :
+  landmark_names = expected_landmarks
+  /\ same_names (msg_named "FooState") (lits_of "acceptState") = true
+  /\ same_names (msg_named "FooEvent") (lits_of "acceptEvent") = true
+  /\ same_names (msg_named "FooEventMessage") (lits_of "acceptPublishTopic") = true
+  /\ svc_methods "FooQueryService" =
+       map (fun f => sprintf1 (list_ascii_of_string f) (bs "Foo")) ["%sGet"; "%sList"; "%sEvents"]%string
+  /\ (forallb (pair_in gen_implicit) implicit_imports = true /\ forallb (pair_in implicit_imports) gen_implicit = true)
+  /\ (forallb (pair_in gen_externals) (externals (expand_with sample [])) = true
+      /\ forallb (pair_in (externals (expand_with sample []))) gen_externals = true)
+  /\ (forallb (fun p => existsb (fun q => bytes_eqb (fst p) (fst q) && (snd p =? snd q)) gen_parts) model_parts = true
+      /\ forallb (fun p => existsb (fun q => bytes_eqb (fst p) (fst q) && (snd p =? snd q)) model_parts) gen_parts = true).
+Proof.
+  destruct property_names_from_model as [P1 [P2 [P3 _]]]. destruct formats_from_model as [_ [F2 _]].
+  exact (conj run_order_from_model (conj P1 (conj P2 (conj P3 (conj F2 (conj implicit_imports_agree
+        (conj model_externals_agree entity_parts_from_model))))))).
+Qed.
+Print Assumptions C17_code_tables_from_model.
+
 (* the README's documented example (re-read from README.md on every run): the declaration it
    prints expands, in the model, to every message, field, status value, rpc and path it shows *)
 Theorem C17_readme_example : readme_agrees.
@@ -451,7 +523,7 @@ Definition C17_sample : entity :=
       [mkC None None [mkM (bs "DoIt") 2 (bs ":fooId/doit") [mkU (bs "fooId") (KKey false None None) false false] (Some []);
                       mkM (bs "Download") 1 (bs "dl") [] None]]
       [mkS [] [mkU (bs "name") (KScalar 9 (bs "string")) false false]]
-      (Some (mkQ true [bs "ACTIVE"]))
+      (Some (mkQ true [bs "ACTIVE"] false))
       [SObject (bs "Address") [mkU (bs "street") (KScalar 9 (bs "string")) false false];
        SEnum (bs "Kind") [bs "A"; bs "B"];
        SOneof (bs "Choice") [mkU (bs "a") (KScalar 9 (bs "string")) false false]].
@@ -462,7 +534,7 @@ Example C17_example :
   /\ nth 0 (query_paths C17_sample) [] = bs "/foo/v1/foo_s/q/{foo_id}/{account_id}"
   /\ nth 2 (query_paths C17_sample) [] = bs "/foo/v1/foo_s/q/{foo_id}/{account_id}/events"
   /\ path_key_names C17_sample = [bs "foo_id"; bs "account_id"]
-  /\ status_values (status_prefix C17_sample) (e_status C17_sample)
+  /\ entity_status_values C17_sample
      = [(bs "FOO_S_STATUS_UNSPECIFIED", 0); (bs "FOO_S_STATUS_ACTIVE", 1); (bs "FOO_S_STATUS_INACTIVE", 2)]
   /\ Forall (fun k => no_slash (uf_name (k_def k)) = true) (e_keys C17_sample)
   /\ upper_word (e_name C17_sample) = true /\ fields_ok C17_sample = true
